@@ -39,7 +39,15 @@ pub trait AsCteXml {
     fn to_xml(&self) -> String;
 
     /// Helper function -> XML escape symbols
+    ///
+    /// Characters that XML 1.0 cannot carry (control characters, U+FFFE, U+FFFF) are removed
     fn escape_xml(unescaped: &str) -> String {
+        let unescaped: String = unescaped
+            .chars()
+            .filter(|c| {
+                matches!(c, '\t' | '\n' | '\r' | '\u{20}'..='\u{D7FF}' | '\u{E000}'..='\u{FFFD}' | '\u{10000}'..='\u{10FFFF}')
+            })
+            .collect();
         unescaped
             .replace('&', "&amp;")
             .replace('<', "&lt;")
